@@ -67,7 +67,21 @@ make_randomable!(isize, usize);
 impl Randomable<f64> for Range<f64> {
     fn gen_from_u64(self, rng: u64) -> f64 {
         assert!(!self.is_empty());
+        // 53 random bits give a fraction in [0, 1)
+        let frac = (rng >> 11) as f64 / (1u64 << 53) as f64;
         let len = self.end - self.start;
-        (rng as f64 / u64::MAX as f64) * len + self.start
+        let res = if len.is_finite() {
+            frac * len + self.start
+        } else {
+            // the length itself overflows f64: add half of it twice
+            let half = frac * (self.end / 2.0 - self.start / 2.0);
+            self.start + half + half
+        };
+        // rounding can still land on `end`, which is excluded
+        if res < self.end {
+            res
+        } else {
+            self.start
+        }
     }
 }
